@@ -25,6 +25,9 @@ def run(tier, seed, res, lean):
         res.violations.append(Violation(
             'c09-correspondence', 'the real pipeline and CM.Model.Pipe/Stack disagree; theorems C09.* no longer tied to the code',
             {'suite': 'S-ALIAS', 'theorems': list(lean['theorems']), **model_bad[0]}, found_input=False))
+    # node level: every connect_bags call made while stacks and dataset pipelines are built leaves both operands as they were
+    from .c02 import node_part
+    res.coverage['node_level'] = node_part(tier, seed + 2, res, lean, 'C09', ['stack', 'rel'], ops={'connect'})
     res.coverage.update({
         'evaluations': stats['variants'], 'distinct_nontrivial': stats['distinct_nontrivial'], 'rule': RULE,
         'programs': stats['cases'], 'disagreements_checked': len(model_bad) + len(problems),
